@@ -677,6 +677,48 @@ where
         for entry in &self.non_primitives {
             entry.validate()?;
         }
+
+        // The Public and ALU trace widths grow with their lane counts, and the ALU width also
+        // with the packed-Horner length, while the proof opens one value per trace column. A
+        // count above the number of columns opened for its table therefore cannot describe
+        // that table. Rejecting it here keeps absurd values (2^63, usize::MAX) away from the
+        // width arithmetic, and from the allocations sized by it, when the AIRs are rebuilt.
+        // A missing instance is left to the verifiers' instance-count checks.
+        let opened_width = |table: PrimitiveTable| {
+            self.proof
+                .opened_values
+                .instances
+                .get(table as usize)
+                .map(|inst| inst.base_opened_values.trace_local.len())
+        };
+        let packing = &self.table_packing;
+        for (field, value, width) in [
+            (
+                "public_lanes",
+                packing.public_lanes(),
+                opened_width(PrimitiveTable::Public),
+            ),
+            (
+                "alu_lanes",
+                packing.alu_lanes(),
+                opened_width(PrimitiveTable::Alu),
+            ),
+            (
+                "horner_packed_steps",
+                packing.horner_packed_steps(),
+                opened_width(PrimitiveTable::Alu),
+            ),
+        ] {
+            if let Some(width) = width
+                && value > width
+            {
+                return Err(ProofMetadataError::ExceedsTraceWidth {
+                    field,
+                    value,
+                    width,
+                });
+            }
+        }
         Ok(())
     }
 }
@@ -722,6 +764,15 @@ pub enum ProofMetadataError {
     /// `horner_packed_steps` is less than 2.
     #[error("horner_packed_steps must be at least 2 (got {0})")]
     BadHornerPackedSteps(usize),
+
+    /// A lane count or the packed-Horner length exceeds the number of trace columns the proof
+    /// opens for its table.
+    #[error("`{field}` ({value}) exceeds the {width} trace columns opened for its table")]
+    ExceedsTraceWidth {
+        field: &'static str,
+        value: usize,
+        width: usize,
+    },
 
     /// `ext_degree` is not one of the supported values.
     #[error("unsupported extension degree {0} (supported: 1,2,4,5,6,8)")]
